@@ -44,7 +44,7 @@ func lzmaWriteExec(p LZWCase, data []byte) (sink []byte, calls []callRes, verr e
 	}
 	var sb sinkBuf
 	pan = core.Guard(func() {
-		w, err := p.Cfg.cfg().NewWriter(&sb)
+		w, err := p.Cfg.build().NewWriter(&sb)
 		calls = append(calls, callRes{Call: "NewWriter", Err: err, Sink: len(sb.b)})
 		if err != nil {
 			return
@@ -339,6 +339,23 @@ func lzmaWCases(r *core.Run, prop string) []LZWCase {
 				c := mo
 				c.DictCap, c.Matcher = dc, mt
 				add(LZWCase{Cfg: c, Shape: []Seg{{K: "R", Seed: 14, N: dc - 40}, {K: "K", N: dc - 40}, {K: "T", Seed: 14, N: 500}}})
+			}
+		}
+	}
+	// configuration histories: an lzma.WriterConfig variable verified with configuration A (Verify
+	// fills defaults in place), then set to configuration B and used; all ordered pairs of a menu
+	{
+		in := buildShape([]Seg{{K: "T", Seed: 15, N: 9000}, {K: "K", N: 7000}})
+		cm := []LZCfg{{DictCap: 4096}, {DictCap: 1 << 20, Props: true, LC: 0, LP: 0, PB: 0, EOS: true}, {DictCap: 65536, Props: true, LC: 1, LP: 2, PB: 3, Matcher: 1, SizeInHeader: true, Size: int64(len(in))},
+			{DictCap: 6145, BufSize: 8192, SizeInHeader: true, Size: int64(len(in)), EOS: true}, {}}
+		for i := range cm {
+			for j := range cm {
+				if i != j {
+					c := cm[j]
+					pre := cm[i]
+					c.Pre = &pre
+					add(LZWCase{Cfg: c, Shape: []Seg{{K: "T", Seed: 15, N: 9000}, {K: "K", N: 7000}}})
+				}
 			}
 		}
 	}
